@@ -129,6 +129,26 @@ func genFieldB(r *rand.Rand, lo, hi, flo, fhi int, names []string, wild string) 
 		return wild, nil
 	case k < 7:
 		return genItem(r, lo, hi, flo, fhi, names)
+	case k == 7 && hi-lo >= 4:
+		// a list that repeats a value and leaves a gap so that the number of items equals the span (`a-b,b,b+2`, `a-b,b-c,c+2`):
+		// the parser keeps duplicates, so anything that reasons from the length of the sorted values is wrong here
+		a := pick(r, lo, hi-3)
+		b := a + r.Intn(hi-2-a)
+		c := b
+		s := lit(r, a, names) + "-" + lit(r, b, names) + "," + lit(r, b, names)
+		if c+3 <= hi && r.Intn(2) == 0 {
+			c = b + 1 + r.Intn(hi-2-b)
+			if c > hi-2 {
+				c = hi - 2
+			}
+			s = lit(r, a, names) + "-" + lit(r, b, names) + "," + lit(r, b, names) + "-" + lit(r, c, names)
+		}
+		var vs []int
+		for i := a; i <= c; i++ {
+			vs = append(vs, i)
+		}
+		vs = append(vs, c+2)
+		return s + "," + lit(r, c+2, names), vs
 	default:
 		n := 2 + r.Intn(3)
 		var parts []string
